@@ -7,17 +7,3 @@ Set Printing Width 100000000.
 Set Printing Depth 100000000.
 Fixpoint bs (l : list nat) : string := match l with [] => EmptyString | n :: r => String (Ascii.ascii_of_nat n) (bs r) end.
 Definition T_ (b : bool) : string := if b then "T" else "F".
-Definition t204 : pt := (mkPacket (mkPtok 37 "MetaData" 2 0 0) (Some (mkPtok 3 "}" 20 0 63)) [(DMeta (mkMetaDef (mkSpan (mkPtok 37 "MetaData" 2 0 0) (mkPtok 3 "}" 4 0 7)) (mkPtok 37 "MetaData" 2 0 0) (mkPtok 42 "Common" 2 9 1) (mkPtok 2 "{" 2 16 2) [(MIDecl (mkMetaDecl (mkSpan (mkPtok 26 "i32" 3 4 3) (mkPtok 40 "," 3 17 5)) (TyBasic (mkSpan (mkPtok 26 "i32" 3 4 3) (mkPtok 26 "i32" 3 4 3)) (mkBasicType (mkSpan (mkPtok 26 "i32" 3 4 3) (mkPtok 26 "i32" 3 4 3)) (mkPtok 26 "i32" 3 4 3))) (mkPtok 42 "TargetID" 3 8 4) None (mkPtok 40 "," 3 17 5)))] (mkPtok 3 "}" 4 0 7))); (DPacket (mkPacketDef (mkSpan (mkPtok 34 "root" 5 0 8) (mkPtok 3 "}" 12 0 39)) (Some (mkPtok 34 "root" 5 0 8)) (mkPtok 35 "packet" 5 5 9) (mkPtok 42 "Ack" 5 12 10) (mkPtok 2 "{" 5 16 11) [(mkFieldWithAttr (mkSpan (mkPtok 26 "i32" 6 4 12) (mkPtok 40 "," 6 42 18)) [] (LengthField (mkSpan (mkPtok 26 "i32" 6 4 12) (mkPtok 40 "," 6 42 18)) (mkLengthFieldDecl (mkSpan (mkPtok 26 "i32" 6 4 12) (mkPtok 40 "," 6 42 18)) (Some (TyBasic (mkSpan (mkPtok 26 "i32" 6 4 12) (mkPtok 26 "i32" 6 4 12)) (mkBasicType (mkSpan (mkPtok 26 "i32" 6 4 12) (mkPtok 26 "i32" 6 4 12)) (mkPtok 26 "i32" 6 4 12)))) (mkPtok 42 "len" 6 8 13) (mkLengthOf (mkSpan (mkPtok 7 "@lengthOf(" 6 12 14) (mkPtok 6 ")" 6 28 16)) (mkPtok 7 "@lengthOf(" 6 12 14) (mkPtok 42 "code" 6 23 15) (mkPtok 6 ")" 6 28 16)) (Some (mkPtok 43 "`two words`" 6 30 17)) (mkPtok 40 "," 6 42 18)))); (mkFieldWithAttr (mkSpan (mkPtok 22 "uint32" 7 4 20) (mkPtok 40 "," 7 16 22)) [] (MetaField (mkSpan (mkPtok 22 "uint32" 7 4 20) (mkPtok 40 "," 7 16 22)) None (mkMetaDecl (mkSpan (mkPtok 22 "uint32" 7 4 20) (mkPtok 40 "," 7 16 22)) (TyBasic (mkSpan (mkPtok 22 "uint32" 7 4 20) (mkPtok 22 "uint32" 7 4 20)) (mkBasicType (mkSpan (mkPtok 22 "uint32" 7 4 20) (mkPtok 22 "uint32" 7 4 20)) (mkPtok 22 "uint32" 7 4 20))) (mkPtok 42 "code" 7 11 21) None (mkPtok 40 "," 7 16 22)))); (mkFieldWithAttr (mkSpan (mkPtok 38 "match" 8 4 23) (mkPtok 40 "," 10 6 32)) [] (MatchField (mkSpan (mkPtok 38 "match" 8 4 23) (mkPtok 40 "," 10 6 32)) (mkMatchFieldDecl (mkSpan (mkPtok 38 "match" 8 4 23) (mkPtok 3 "}" 10 4 31)) (mkPtok 38 "match" 8 4 23) (mkPtok 42 "code" 8 10 24) (mkPtok 17 "as" 8 15 25) (mkPtok 42 "Body" 8 18 26) (mkPtok 2 "{" 8 23 27) [(mkMatchPair (mkSpan (mkPtok 30 "8" 9 8 28) (mkPtok 42 "Logout" 9 12 30)) (MKDigits (mkPtok 30 "8" 9 8 28)) (mkPtok 39 ":" 9 10 29) (mkPtok 42 "Logout" 9 12 30) None)] (mkPtok 3 "}" 10 4 31)) (mkPtok 40 "," 10 6 32))); (mkFieldWithAttr (mkSpan (mkPtok 9 "@tag(" 11 4 33) (mkPtok 40 "," 11 28 38)) [(FATag (mkSpan (mkPtok 9 "@tag(" 11 4 33) (mkPtok 6 ")" 11 12 35)) (mkTagAttr (mkSpan (mkPtok 9 "@tag(" 11 4 33) (mkPtok 6 ")" 11 12 35)) (mkPtok 9 "@tag(" 11 4 33) (mkPtok 30 "1" 11 10 34) (mkPtok 6 ")" 11 12 35)))] (MetaField (mkSpan (mkPtok 15 "string" 11 14 36) (mkPtok 40 "," 11 28 38)) None (mkMetaDecl (mkSpan (mkPtok 15 "string" 11 14 36) (mkPtok 40 "," 11 28 38)) (TyDynamic (mkSpan (mkPtok 15 "string" 11 14 36) (mkPtok 15 "string" 11 14 36)) (mkDynamicString (mkSpan (mkPtok 15 "string" 11 14 36) (mkPtok 15 "string" 11 14 36)) (mkPtok 15 "string" 11 14 36))) (mkPtok 42 "symbol" 11 21 37) None (mkPtok 40 "," 11 28 38))))] (mkPtok 3 "}" 12 0 39))); (DPacket (mkPacketDef (mkSpan (mkPtok 35 "packet" 13 0 40) (mkPtok 3 "}" 20 0 63)) None (mkPtok 35 "packet" 13 0 40) (mkPtok 42 "Logout" 13 7 41) (mkPtok 2 "{" 13 14 42) [(mkFieldWithAttr (mkSpan (mkPtok 9 "@tag(" 14 4 43) (mkPtok 40 "," 15 17 48)) [(FATag (mkSpan (mkPtok 9 "@tag(" 14 4 43) (mkPtok 6 ")" 14 12 45)) (mkTagAttr (mkSpan (mkPtok 9 "@tag(" 14 4 43) (mkPtok 6 ")" 14 12 45)) (mkPtok 9 "@tag(" 14 4 43) (mkPtok 30 "7" 14 10 44) (mkPtok 6 ")" 14 12 45)))] (MetaField (mkSpan (mkPtok 21 "u16" 15 4 46) (mkPtok 40 "," 15 17 48)) None (mkMetaDecl (mkSpan (mkPtok 21 "u16" 15 4 46) (mkPtok 40 "," 15 17 48)) (TyBasic (mkSpan (mkPtok 21 "u16" 15 4 46) (mkPtok 21 "u16" 15 4 46)) (mkBasicType (mkSpan (mkPtok 21 "u16" 15 4 46) (mkPtok 21 "u16" 15 4 46)) (mkPtok 21 "u16" 15 4 46))) (mkPtok 42 "msg_type" 15 8 47) None (mkPtok 40 "," 15 17 48)))); (mkFieldWithAttr (mkSpan (mkPtok 9 "@tag(" 16 4 49) (mkPtok 40 "," 17 19 54)) [(FATag (mkSpan (mkPtok 9 "@tag(" 16 4 49) (mkPtok 6 ")" 16 12 51)) (mkTagAttr (mkSpan (mkPtok 9 "@tag(" 16 4 49) (mkPtok 6 ")" 16 12 51)) (mkPtok 9 "@tag(" 16 4 49) (mkPtok 30 "1" 16 10 50) (mkPtok 6 ")" 16 12 51)))] (ObjectField (mkSpan (mkPtok 42 "TargetID" 17 4 52) (mkPtok 40 "," 17 19 54)) None (mkPtok 42 "TargetID" 17 4 52) (Some (mkPtok 42 "venue" 17 13 53)) None (mkPtok 40 "," 17 19 54))); (mkFieldWithAttr (mkSpan (mkPtok 42 "TargetID" 18 4 55) (mkPtok 40 "," 18 17 57)) [] (ObjectField (mkSpan (mkPtok 42 "TargetID" 18 4 55) (mkPtok 40 "," 18 17 57)) None (mkPtok 42 "TargetID" 18 4 55) (Some (mkPtok 42 "qty" 18 13 56)) None (mkPtok 40 "," 18 17 57))); (mkFieldWithAttr (mkSpan (mkPtok 27 "int64" 19 4 59) (mkPtok 40 "," 19 14 61)) [] (MetaField (mkSpan (mkPtok 27 "int64" 19 4 59) (mkPtok 40 "," 19 14 61)) None (mkMetaDecl (mkSpan (mkPtok 27 "int64" 19 4 59) (mkPtok 40 "," 19 14 61)) (TyBasic (mkSpan (mkPtok 27 "int64" 19 4 59) (mkPtok 27 "int64" 19 4 59)) (mkBasicType (mkSpan (mkPtok 27 "int64" 19 4 59) (mkPtok 27 "int64" 19 4 59)) (mkPtok 27 "int64" 19 4 59))) (mkPtok 42 "seq" 19 10 60) None (mkPtok 40 "," 19 14 61))))] (mkPtok 3 "}" 20 0 63)))]).
-Eval vm_compute in ("<<<W204_alias_short>>>" ++ sh_escaped (render (rw_alias_short t204)) "").
-Eval vm_compute in ("<<<W204_alias_long>>>" ++ sh_escaped (render (rw_alias_long t204)) "").
-Eval vm_compute in ("<<<W204_alias_long_opts>>>" ++ sh_escaped (render (rw_alias_long_opts t204)) "").
-Eval vm_compute in ("<<<W204_zchar>>>" ++ sh_escaped (render (rw_zchar t204)) "").
-Eval vm_compute in ("<<<W204_drop_default_pad>>>" ++ sh_escaped (render (rw_drop_default_pad t204)) "").
-Eval vm_compute in ("<<<W204_add_default_pad>>>" ++ sh_escaped (render (rw_add_default_pad t204)) "").
-Eval vm_compute in ("<<<W204_prefix_attr>>>" ++ sh_escaped (render (rw_prefix_attr t204)) "").
-Eval vm_compute in ("<<<W204_default_options>>>" ++ sh_escaped (render (rw_default_options t204)) "").
-Eval vm_compute in ("<<<W204_expand_keys>>>" ++ sh_escaped (render (rw_expand_keys t204)) "").
-Eval vm_compute in ("<<<W204_inline_meta>>>" ++ sh_escaped (render (rw_inline_meta t204)) "").
-Eval vm_compute in ("<<<W204_seps_all>>>" ++ sh_escaped (render (rw_seps_all t204)) "").
-Eval vm_compute in ("<<<W204_seps_none>>>" ++ sh_escaped (render (rw_seps_none t204)) "").
-Eval vm_compute in ("<<<W204_drop_docs>>>" ++ sh_escaped (render (rw_drop_docs t204)) "").
